@@ -236,6 +236,12 @@ def norm_literal(t, pol):
         t, pol = ('==',) + t[1:], not pol
     if isinstance(t, tuple) and len(t) == 3 and t[0] == '<=':
         t, pol = ('<', t[2], t[1]), not pol
+    if isinstance(t, tuple) and len(t) == 3 and t[0] == '==' and 'nullptr' in t[1:]:
+        # `p == nullptr` is a failed `if (p)`
+        o = [x for x in t[1:] if x != 'nullptr']
+        if len(o) == 1:
+            t, pol = o[0], not pol
+            return norm_literal(t, pol)
     return t, pol
 
 
@@ -367,6 +373,16 @@ def enum_paths(stmt, limit=4000):
         return [Path((), (s,), 'fall', None)]
 
     return paths(stmt)
+
+
+def region_of(f, n):
+    """the innermost loop body / lambda body enclosing node n (else the function body): the unit whose acyclic paths enum_paths enumerates."""
+    for a in f.ancestors(n):
+        if a.get('k') in ('ForStmt', 'WhileStmt', 'DoStmt', 'CXXForRangeStmt'):
+            return a['slots']['body']
+        if a.get('k') == 'LambdaExpr':
+            return (a.get('c') or [f.body])[0]
+    return f.body
 
 
 def cond_key(c, env=None):
